@@ -1,5 +1,5 @@
 (** C06 — results are independent of resolver scheduling; mutation roots run serially. *)
-From GV Require Import Base.Prelude Base.Interleave Model.Exec Model.Conc Proofs.ExecProofs Proofs.ConcProofs.
+From GV Require Import Base.Prelude Base.Interleave Model.Exec Model.Conc Model.MutSerial Proofs.ExecProofs Proofs.ConcProofs Proofs.MutSerialProofs.
 Open Scope list_scope.
 
 (** For ANY interleaving of the atomic actions (append an error under the mutex, publish a slot, bump the
@@ -32,3 +32,22 @@ Print Assumptions C06_sequential_is_completion.
 Theorem C06_sequential_is_an_interleaving : forall (tasks : list (list action)), interleave tasks (List.concat tasks).
 Proof. intros tasks. apply interleave_sequential. Qed.
 Print Assumptions C06_sequential_is_an_interleaving.
+
+(** Mutation root fields: the generated root marshaller runs them inline, one after another in collection order.
+    Whatever events each root field produces - in whatever order its own sub-selection is scheduled - the trace of
+    the operation shows every root field as one block, the blocks in document order: a field starts only after the
+    previous one has ended, sub-selection included.  (This is what the observer in Corr_C01.serial_ok checks on the
+    start / end events of every mutation.) *)
+Theorem C06_mutation_roots_serial : forall (A : Type) (bodies : list (list (nat * A))),
+  (forall i b, nth_error bodies i = Some b -> body_of A i b) ->
+  grouped A (List.length bodies) (serial_trace A bodies) = true.
+Proof. exact serial_grouped_lemma. Qed.
+Print Assumptions C06_mutation_roots_serial.
+
+(** Dispatching the same root fields the way a query's are (goroutines) admits schedules that are not serial. *)
+Theorem C06_concurrent_roots_refuted :
+  let bodies := [[(0, "start"); (0, "end")]; [(1, "start"); (1, "end")]]%string in
+  let tr := [(0, "start"); (1, "start"); (0, "end"); (1, "end")]%string in
+  concurrent_trace string bodies tr /\ grouped string 2 tr = false.
+Proof. exact concurrent_not_grouped_witness. Qed.
+Print Assumptions C06_concurrent_roots_refuted.
